@@ -15,6 +15,18 @@ VERIF = os.path.dirname(HERE)
 KANI_DIR = os.path.join(VERIF, 'kani')
 GEN_DIR = os.path.join(VERIF, 'out', 'kani-gen')
 TARGET_DIR = os.path.join(VERIF, 'out', 'kani-target')
+
+
+def target_dir(repo):
+    """One cargo-kani target directory per checked tree.  A scratch worktree must never share the
+    directory of /repo: cargo-kani resolves a harness to the most recently generated goto file of
+    that crate, so after a run on a (patched) worktree a run on /repo -- which cargo rightly
+    considers fresh and does not rebuild -- analysed the worktree's code (observed: a seeded
+    defect of the worktree reported as a failure on the unchanged /repo)."""
+    repo = os.path.realpath(repo)
+    if repo == '/repo':
+        return TARGET_DIR
+    return TARGET_DIR + '-' + re.sub(r'[^A-Za-z0-9]+', '_', repo).strip('_')
 MEM_LIMIT = 24 * 1024 ** 3
 # cargo features per crate (toml_edit's de/ser modules exist only with `serde`)
 FEATURES = {'toml_edit': ['serde']}
@@ -142,6 +154,26 @@ def gen_k10(repo):
     return notes
 
 
+WORKSPACE_CRATES = ('toml', 'toml_edit', 'toml_datetime', 'toml_write', 'serde_spanned')
+
+
+def force_rebuild(repo):
+    """Checks must rebuild from the tree's current content, not from whatever cargo considers fresh
+    by file time: the build records of the workspace crates (not of the dependencies) are removed
+    from this tree's Kani target directory, so the next cargo-kani invocation compiles them again.
+    Call once per check run, before any cargo-kani process is started."""
+    import glob
+    import shutil
+    td = target_dir(repo)
+    n = 0
+    for crate in WORKSPACE_CRATES:
+        for d in glob.glob(os.path.join(td, 'kani', '*', 'debug', 'build', crate)) + \
+                glob.glob(os.path.join(td, 'kani', '*', 'debug', 'incremental', crate + '-*')):
+            shutil.rmtree(d, ignore_errors=True)
+            n += 1
+    return n
+
+
 def ensure_gen(repo):
     """every generated include must exist for the crate to compile under cfg(kani)"""
     notes = {}
@@ -156,11 +188,11 @@ def ensure_gen(repo):
 def run_harnesses(crate, harnesses, repo='/repo', jobs=8, harness_timeout=600, total_timeout=None,
                   extra_args=(), log=print):
     """-> dict harness -> result.  harnesses: exact harness function names (last path segment)."""
-    os.makedirs(TARGET_DIR, exist_ok=True)
+    os.makedirs(target_dir(repo), exist_ok=True)
     export = os.path.join(VERIF, 'out', 'kani-export-%s-%d.json' % (crate, os.getpid()))
     if os.path.exists(export):
         os.remove(export)
-    cmd = ['cargo', 'kani', '-p', pkgspec(crate, repo), '--target-dir', TARGET_DIR, '-j', str(jobs),
+    cmd = ['cargo', 'kani', '-p', pkgspec(crate, repo), '--target-dir', target_dir(repo), '-j', str(jobs),
            '--output-format', 'terse', '-Z', 'function-contracts', '-Z', 'stubbing',
            '-Z', 'unstable-options', '--harness-timeout', '%ds' % harness_timeout,
            '--export-json', export]
@@ -236,7 +268,7 @@ def run_harnesses(crate, harnesses, repo='/repo', jobs=8, harness_timeout=600, t
 
 def concrete_playback(crate, harness, repo='/repo', timeout=900):
     """re-run one failing harness with concrete playback; returns list of byte vectors"""
-    cmd = ['cargo', 'kani', '-p', pkgspec(crate, repo), '--target-dir', TARGET_DIR, '--harness', harness, '--exact'
+    cmd = ['cargo', 'kani', '-p', pkgspec(crate, repo), '--target-dir', target_dir(repo), '--harness', harness, '--exact'
            if False else '--harness', harness,
            '--output-format', 'terse', '-Z', 'function-contracts', '-Z', 'stubbing',
            '-Z', 'concrete-playback', '--concrete-playback=print']
@@ -274,7 +306,7 @@ def warm(repo='/repo'):
     """compile the hooked crates for Kani once (codegen only) so that later checks start fast"""
     ensure_gen(repo)
     for crate in ('toml_edit', 'toml_datetime', 'toml', 'toml_write'):
-        cmd = ['cargo', 'kani', '-p', pkgspec(crate, repo), '--target-dir', TARGET_DIR, '--only-codegen',
+        cmd = ['cargo', 'kani', '-p', pkgspec(crate, repo), '--target-dir', target_dir(repo), '--only-codegen',
                '-Z', 'function-contracts', '-Z', 'stubbing']
         if FEATURES.get(crate):
             cmd += ['--features', ','.join(FEATURES[crate])]
